@@ -15,8 +15,8 @@ CLAIMS = {
         note="Partial: 'versions at most once over whole runs' is per-step + oracle only. Modelled not verified: SPAKE2, HKDF, SHA-256, SecretBox (ideal interface); JSON/hex codec abstract; Nameplate/Code not modelled here.",
         tech="Lean 4 proof (induction over adversary schedules, ideal-crypto interface) + generated operand/skeleton obligations + differential correspondence"),
     "C03": dict(
-        text="13 Lean theorems over arbitrary traces of the executed step functions: tx_numbering, send_fifo, pending_until_echo, resent_on_every_open (generated Mailbox table), dedup_once, echo_never_delivered, reorder_buffer_prefix (invariant induction over every arrival list), observer_fifo, e2e_prefix / e2e_complete on the abstract Pipe; 26 call skeletons as obligations; components tied to the real Boss/Send/Mailbox/Order/Receive/observer objects, whole-client oracle on two real clients under arbitrary delivery order, duplication, replay and drops.",
-        note="Proof of components + validated composition: client_refines_pipe is not proved in Lean; the composed real client is compared with Pipe by replaying every observed arrival order. Crypto ideal.",
+        text="13 Lean theorems over arbitrary traces of the executed step functions: tx_numbering, send_fifo, pending_until_echo, resent_on_every_open (generated Mailbox table), dedup_once, echo_never_delivered, reorder_buffer_prefix (invariant induction over every arrival list), observer_fifo / observer_prefix_with_errors, e2e_prefix / e2e_complete on the abstract Pipe, and the composition e2e_prefix_clients (= client_refines_pipe): for two composed Clients + a storing/duplicating/reordering/replaying server bag and arbitrary drops on both sides, what B received is exactly the first n of what A sent, both directions, all schedules; phase_roundtrip; 26 call skeletons as obligations; components tied to the real Boss/Send/Mailbox/Order/Receive/observer objects, whole-client oracle on two real clients under arbitrary delivery order, duplication, replay and drops.",
+        note="Composition proved in Lean (kernel-only) over the same step functions the driver executes; that the real client is this composed Client is checked by the component-level and whole-client differential runs. Crypto ideal (open_seal); the server delivers stored triples unmodified (tampering is C02).",
         tech="Lean 4 proof (invariant inductions over traces) + skeleton agreement + component-level and whole-client differential correspondence"),
     "C04": dict(
         text="16 Lean theorems over an executable Xfer model (sender chunker + running hash + ack check; receiver byte accounting into dest+'.tmp', rename only after xfersize bytes; zip mode) for every content, size incl. 0, chunk size and interleaving: receiver_success_exact, both_success_exact, cut_no_success_no_final, sender_success_needs_matching_ack (iff), honest_run_succeeds; call skeletons of _parse_offer/_transfer_data/_write_file/_send_file are decide obligations; tied to the REAL Sender._send_file / Receiver._parse_offer.._close_transit over two real transit.Connection objects in a sandbox.",
